@@ -497,6 +497,35 @@ def search(seed, tier):
                                   'independent angle tensors', max_abs_diff=float((a - b).abs().max())))
         except Exception as e:
             found.append(dict(case=f'{nm} at points whose angles were computed from the radius', error=f'{type(e).__name__}: {e}'))
+    # degrees lists are read at construction: editing the caller's list afterwards changes neither the basis nor its Laplacian
+    try:
+        dl = [0, 2, 5]
+        opz, hz = FB.ZonalSphericalHarmonicsLaplacian(degrees=dl), FB.ZonalSphericalHarmonics(degrees=dl)
+        netd = FCNN(1, 3, hidden_units=(6,))
+        a0, y0 = opz(netd(r), r, th, ph).detach().clone(), hz(th, ph).detach().clone()
+        dl[1] = 4
+        dl.append(7)
+        a1, y1 = opz(netd(r), r, th, ph).detach(), hz(th, ph).detach()
+        fresh = FB.ZonalSphericalHarmonicsLaplacian(degrees=[0, 2, 5])(netd(r), r, th, ph).detach()
+        if not torch.allclose(a1, a0, rtol=0, atol=1e-12) or not torch.allclose(y1, y0, rtol=0, atol=1e-12) or not torch.allclose(a1, fresh, rtol=0, atol=1e-12):
+            found.append(dict(case='degrees list edited by the caller after the zonal basis / Laplacian was built', max_abs_change=float((a1 - a0).abs().max())))
+    except Exception as e:
+        found.append(dict(case='degrees list edited by the caller after construction', error=f'{type(e).__name__}: {e}'))
+    # high zonal degrees: still differentiable functions of theta - the basis Laplacian and the full Laplacian of the expanded field agree
+    for degs_hi in ([21], [24, 3], [22, 26]):
+        try:
+            nh = FCNN(1, len(degs_hi), hidden_units=(6,))
+            a = FB.ZonalSphericalHarmonicsLaplacian(degrees=degs_hi)(nh(r), r, th, ph)
+            yh = FB.ZonalSphericalHarmonics(degrees=degs_hi)(th, ph)
+            u = torch.sum(nh(r) * yh.reshape(n, len(degs_hi)), dim=1, keepdim=True)
+            b = ops.spherical_laplacian(u, r, th, ph)
+            scale = 1.0 + float(b.detach().abs().max())
+            dth = diff(yh[:, :1], th)
+            if not torch.allclose(a, b, rtol=1e-4, atol=1e-4 * scale) or float(dth.detach().abs().max()) == 0.0:
+                found.append(dict(case='ZonalSphericalHarmonicsLaplacian vs spherical_laplacian at high degrees', degrees=degs_hi,
+                                  max_abs_diff=float((a - b).detach().abs().max()), scale=scale, dY_dtheta_max=float(dth.detach().abs().max())))
+        except Exception as e:
+            found.append(dict(case='zonal harmonics of high degree', degrees=degs_hi, error=f'{type(e).__name__}: {e}'))
     # single-function bases and single evaluation points (shapes must stay (n, k))
     for basis, args, k in ((FB.LegendreBasis(max_degree=0), (x,), 1), (FB.ZonalSphericalHarmonics(degrees=[3]), (th, ph), 1),
                            (FB.RealFourierSeries(max_degree=0), (ph,), 1), (FB.RealSphericalHarmonics(max_degree=0), (th, ph), 1)):
